@@ -64,6 +64,19 @@ Theorem C16_wcommute_iff_den :
 Proof. exact wcommute_iff_den. Qed.
 Print Assumptions C16_wcommute_iff_den.
 
+(* every Pauli word is an involution: w * w is the empty word with phase i^0, for every word (no
+   well-formedness needed), hence den w (den w psi) = psi for well-formed words; commutation is
+   symmetric and reflexive *)
+Theorem C16_word_involution :
+  forall w, wmul w w = ([], 0%Z).
+Proof. exact wmul_self. Qed.
+Print Assumptions C16_word_involution.
+
+Theorem C16_wcommute_symmetric_reflexive :
+  forall a b, wcommute b a = wcommute a b /\ wcommute a a = true /\ wcommute [] b = true.
+Proof. intros a b. split; [apply wcommute_sym|]. split; [apply wcommute_self|apply wcommute_nil_l]. Qed.
+Print Assumptions C16_wcommute_symmetric_reflexive.
+
 (* ======================================================================== fermionic operators: values *)
 (* every linear observable f of the dictionaries produced by the openfermion loops the Tangelo methods
    delegate to is the algebraic one (f = indicator of a key: a coefficient; f = melem: a matrix element) *)
